@@ -9,6 +9,7 @@ import multiprocessing
 import os
 import random
 import select
+import shutil
 import subprocess
 import sys
 import time
@@ -58,29 +59,120 @@ _BUILD = {
 }
 
 
+# hook groups that can be compiled out one by one (cfg john_yu_sm9_core_verif_skip_<group>): the first six name a wrapper inside
+# /repo's verif hooks, the others a private method the executor calls directly on a re-exported internal type
+HOOK_GROUPS = ['raw', 'sop', 'pow', 'fexp', 'prep', 'consts', 'f4x', 'f12x', 'powfr', 'fexpm', 'ml', 'fqx']
+_HOOKS = {}       # 'level': lines | base | partial | none, 'skipped': [...], 'flags': rustc cfg flags
+
+
+def _probe(job):
+    """does the executor type-check against /repo's current tree with these cfg flags? (cargo check, no code generation)"""
+    i, flags = job
+    e = _cargo_env({'RUSTFLAGS': flags})
+    d = 'target-probe-%d' % i
+    try:
+        p = subprocess.run(['cargo', 'check', '--target-dir', d], cwd=EXEC_DIR, env=e, stdout=subprocess.PIPE, stderr=subprocess.STDOUT, text=True)
+        return p.returncode == 0
+    finally:
+        shutil.rmtree(os.path.join(EXEC_DIR, d), ignore_errors=True)
+
+
+def _resolve_hooks():
+    """Called after a build with every hook enabled has failed: find out which hook groups still compile against this tree.
+    all groups off fails -> level none (public API only); otherwise each group (and the optional line-function hooks) is
+    tried on its own (probes run side by side, each in its own scratch target directory) and the failing ones are dropped."""
+    from concurrent.futures import ThreadPoolExecutor
+    skip = lambda gs: ' '.join('--cfg %s_skip_%s' % (GUARD, g) for g in gs)
+    base = '--cfg %s' % GUARD
+    jobs = [base + ' ' + skip(HOOK_GROUPS)]
+    jobs += [base + ' ' + skip([h for h in HOOK_GROUPS if h != g]) for g in HOOK_GROUPS]
+    jobs.append('%s --cfg %s_lines %s' % (base, GUARD, skip(HOOK_GROUPS)))
+    with ThreadPoolExecutor(max_workers=len(jobs)) as ex:
+        res = list(ex.map(_probe, enumerate(jobs)))
+    if not res[0]:
+        return {'level': 'none', 'skipped': HOOK_GROUPS + ['lines'], 'flags': '--cfg sm9exec_nohooks'}
+    bad = [g for g, ok in zip(HOOK_GROUPS, res[1:1 + len(HOOK_GROUPS)]) if not ok]
+    lines_ok = res[-1]
+    flags = (base + (' --cfg %s_lines' % GUARD if lines_ok else '') + ' ' + skip(bad)).strip()
+    level = 'partial' if bad else ('lines' if lines_ok else 'base')
+    return {'level': level, 'skipped': bad + ([] if lines_ok else ['lines']), 'flags': flags}
+
+
+def _tree_key():
+    """content hash of the sources a probe result depends on (the tree under test and the executor)"""
+    h = hashlib.sha256()
+    for root in (os.path.join(REPO, 'src'), os.path.join(EXEC_DIR, 'src')):
+        for d, _dirs, files in sorted(os.walk(root)):
+            for f in sorted(files):
+                fp = os.path.join(d, f)
+                h.update(fp.encode() + b'\0')
+                with open(fp, 'rb') as fh:
+                    h.update(fh.read())
+    for fp in (os.path.join(REPO, 'Cargo.toml'), os.path.join(EXEC_DIR, 'Cargo.toml')):
+        with open(fp, 'rb') as fh:
+            h.update(fh.read())
+    return h.hexdigest()
+
+
+def _resolve_hooks_cached():
+    """the probe result for exactly this source content is remembered under executor/target (build output, never committed): it only
+    selects which cfg set the real build - always from the current tree - tries next"""
+    cache = os.path.join(EXEC_DIR, 'target', 'hook-probe-cache.json')
+    key = _tree_key()
+    try:
+        c = json.load(open(cache))
+    except Exception:
+        c = {}
+    if key in c:
+        return c[key]
+    res = _resolve_hooks()
+    c[key] = res
+    try:
+        os.makedirs(os.path.dirname(cache), exist_ok=True)
+        tmp = cache + '.%d' % os.getpid()
+        json.dump(c, open(tmp, 'w'))
+        os.replace(tmp, cache)
+    except OSError:
+        pass
+    return res
+
+
+def hook_flags():
+    """cfg flags of the hook set in use (decided by the first build of this process)"""
+    return _HOOKS.get('flags', '--cfg %s --cfg %s_lines' % (GUARD, GUARD))
+
+
 def build(name, quiet=True):
-    """(Re)build one executor flavour from /repo's current working tree. Returns the binary path."""
+    """(Re)build one executor flavour from /repo's current working tree. Returns the binary path.
+    Hooks: first with every hook; if that does not compile (an internal item the hooks name was refactored) the set of hook groups
+    that still compile is determined once (_resolve_hooks) and used for every build of this process. Ops of a dropped group answer
+    'bad unknown op' and are skipped by the monitors; with no hooks at all C17 becomes inconclusive."""
     if name == 'release' and os.environ.get('VERIF_RELEASE_FLAVOUR'):
         name = os.environ['VERIF_RELEASE_FLAVOUR']
     argv, env, rel = _BUILD[name]
     cmd = ['cargo'] + argv
     t0 = time.time()
     extra = env.get('RUSTFLAGS', '')
-    # hook levels, tried in order: basic + optional line-function hooks; basic hooks only (private line helpers were refactored);
-    # no hooks at all (an internal signature the hooks depend on changed): the public-API monitors still run, hook ops answer
-    # 'bad unknown op' and are skipped, C17 becomes inconclusive
-    levels = [('lines', '--cfg %s --cfg %s_lines' % (GUARD, GUARD)), ('base', '--cfg %s' % GUARD), ('none', '--cfg sm9exec_nohooks')]
-    p = None
-    for level, flags in levels:
+
+    def attempt(flags):
         e = dict(env)
         e['RUSTFLAGS'] = (flags + ' ' + extra).strip()
-        p = subprocess.run(cmd, cwd=EXEC_DIR, env=_cargo_env(e), stdout=subprocess.PIPE, stderr=subprocess.STDOUT, text=True)
-        if p.returncode == 0:
-            HOOK_LEVEL[name] = level
-            break
+        return subprocess.run(cmd, cwd=EXEC_DIR, env=_cargo_env(e), stdout=subprocess.PIPE, stderr=subprocess.STDOUT, text=True)
+
+    p = attempt(hook_flags())
+    if p.returncode != 0 and not _HOOKS:
+        _HOOKS.update(_resolve_hooks_cached())
+        p = attempt(hook_flags())
+        if p.returncode != 0 and _HOOKS['level'] != 'none':
+            # groups that compile one by one but not together: public API only
+            _HOOKS.update({'level': 'none', 'skipped': HOOK_GROUPS + ['lines'], 'flags': '--cfg sm9exec_nohooks'})
+            p = attempt(hook_flags())
     if p.returncode != 0:
         tail = '\n'.join(p.stdout.splitlines()[-40:])
         raise Inconclusive('build of %s executor failed (cargo exit %d):\n%s' % (name, p.returncode, tail))
+    if not _HOOKS:
+        _HOOKS.update({'level': 'lines', 'skipped': [], 'flags': hook_flags()})
+    HOOK_LEVEL[name] = _HOOKS['level']
     path = os.path.join(EXEC_DIR, rel)
     if not os.path.exists(path):
         raise Inconclusive('build of %s executor produced no binary at %s' % (name, path))
@@ -273,7 +365,8 @@ class Ctx:
         self.tier = tier
         self.seed = seed
         self.exe_paths = exes          # name -> path
-        self.hooks = exes.get('_hooks', 'lines')
+        self.hooks = exes.get('_hooks', 'lines')        # lines | base | partial | none
+        self.skipped = exes.get('_skipped', [])         # hook groups that do not compile against this tree
         self.mode = exes.get('_mode')      # None | 'repeat' | 'par': metamorphic perturbation passes (see run())
         self._ex = {}
         self.evals = 0
@@ -542,8 +635,8 @@ def main_check(pid, tier, seed, replay=None, jobs=None, verbose=False):
             exes[name] = build(name)
     except Inconclusive as e:
         return inconclusive(str(e))
-    order = ['none', 'base', 'lines']
-    exes['_hooks'] = min((HOOK_LEVEL.get(n, 'lines') for n in need), key=order.index) if need else 'lines'
+    exes['_hooks'] = _HOOKS.get('level', 'lines')
+    exes['_skipped'] = list(_HOOKS.get('skipped', []))
     if exes['_hooks'] == 'none' and getattr(mod, 'NEEDS_HOOKS', False):
         return inconclusive('the cfg(%s) hooks do not compile against this tree and this property can only be observed through them' % GUARD)
 
@@ -615,10 +708,13 @@ def main_check(pid, tier, seed, replay=None, jobs=None, verbose=False):
     if callable(getattr(mod, 'required', None)):
         required = mod.required(tier)
     missing = [c for c in required if agg.classes.get(c, 0) == 0] if not replay else []
-    if exes.get('_hooks') == 'none':
-        # classes that can only be observed through the hooks cannot be required when the hooks do not compile
+    waived = []
+    if exes.get('_hooks') in ('none', 'partial'):
+        # classes that can only be observed through the hooks cannot be required when (some of) the hooks do not compile
         hook_cls = tuple(getattr(mod, 'HOOK_CLASSES', ()))
-        missing = [c for c in missing if not c.startswith(hook_cls)] if hook_cls else missing
+        if hook_cls:
+            waived = [c for c in missing if c.startswith(hook_cls)]
+            missing = [c for c in missing if not c.startswith(hook_cls)]
 
     # replays
     replay_paths = []
@@ -655,6 +751,8 @@ def main_check(pid, tier, seed, replay=None, jobs=None, verbose=False):
         'cases': (len(cases) if cases is not None else 1),
         'executors': sorted(k for k in exes if not k.startswith('_')),
         'hooks_level': exes.get('_hooks'),
+        'hook_groups_unavailable': exes.get('_skipped', []),
+        'required_classes_waived_hooks_unavailable': waived,
         'stages': stage_reports,
         'perturbation_passes': perturb if not replay else {},
         'repo': repo_state(),
